@@ -28,6 +28,7 @@ def run(ctx):
     i_f = ("field", selfp, "i")
     k_f = ("field", selfp, "k")
     fill = mk("Lt", i_f, k_f)
+    fill_len = mk("Lt", ("call", "std::vec::Vec::len", (("field", selfp, "reservoir"),)), k_f)   # equivalent guard: len = min(i, k)
     pe = PathEnumerator(add, prog, ctx.summ)
     n = 0
     probs_len, probs_idx, probs_val = [], [], []
@@ -38,6 +39,8 @@ def run(ctx):
         n += 1
         facts = pe.path_facts(p)
         fd = {repr(c): t for c, t in facts}
+        if repr(fill) not in fd and repr(fill_len) in fd:
+            fd[repr(fill)] = fd[repr(fill_len)]
         ws = [e for e in p.events if e["kind"] == "write" and e["root"] == SELF]
         iw = [e for e in ws if self_field(e) == "i"]
         if not (len(iw) == 1 and iw[0]["value"] == mk("Add", i_f, const(1))):
@@ -117,7 +120,7 @@ def run(ctx):
                 if s == const(0) and e in (k_f, i_f, mk("Add", i_f, const(1))):
                     # i >= k must be known here when the end is i
                     facts = {repr(c): tr for c, tr in atomic_facts(add, prog, bi, tb)}
-                    okr = e != i_f or facts.get(repr(fill)) is False
+                    okr = e != i_f or facts.get(repr(fill)) is False or facts.get(repr(fill_len)) is False
                 if s and e and s[0] == "const" and e[0] == "const" and s[1] < e[1]:
                     okr = True
                     # a float draw that feeds ln(1 - x) must exclude 1.0 (ln 0 = -inf saturates the gap and `i + g` overflows)
